@@ -6,6 +6,16 @@ VERIF = os.path.dirname(os.path.dirname(os.path.abspath(__file__)))
 ALL = ['C%02d' % i for i in range(1, 21)]
 
 CLAIMED = {
+    'C05': dict(
+        text='Theorems about the Gallina model of to_json/from_json for requests, responses, errors and batches of ANY length and '
+             'payload: from_json(to_json m) returns m up to the normalisation the wire form forces (the spellings of "no parameters"; '
+             'the error class recomputed from the code), serialising again gives the identical document, and the wire form is '
+             'characterised member by member (jsonrpc "2.0", id iff call, params iff non-empty, exactly one of result/error, null vs '
+             'absent). Correspondence: constructor-built messages pushed through the real json codec and the library encoder.',
+        note='trusted: Coq kernel + vm_compute; hand-written model (validated on generated inputs only); json.dumps/json.loads as an '
+             'oracle exercised on every case; floats as opaque repr tokens; the empty BatchRequest is excluded (C06 refuses it).',
+        technique='Coq proof (round-trip and wire-exactness lemmas, induction over batch lists) + correspondence by vm_compute',
+        design='6 C05'),
     'C06': dict(
         text='Theorems (Coq 8.16.1, closed under the global context) about a Gallina model of the five deserialisers and the '
              'batch mutators: for EVERY JSON value only DeserializationError (IdentityError for duplicate batch ids) escapes, '
